@@ -424,13 +424,20 @@ pub fn plan_history(prop: &str, tier: &str, seed: u64, n: usize) -> Plan {
     let mut cases = vec![];
     for i in 0..n {
         let s = master.next();
-        cases.push(Case { expect: vec![], name: format!("{prop}-hist{i}-seed{s}"), lines: HistGen::history(s, p.clone()) });
+        // most histories use the base shape; some use tall hierarchies / many attributes, some many small dimensions
+        let mut q = p.clone();
+        match s % 10 {
+            0 | 1 => { q.max_dims = 2; q.max_attrs = 6; }
+            2 => { q.max_dims = 4; q.max_attrs = 2; }
+            _ => {}
+        }
+        cases.push(Case { expect: vec![], name: format!("{prop}-hist{i}-seed{s}"), lines: HistGen::history(s, q) });
     }
     Plan {
         per_line: false,
         cases,
         exhaustive: false,
-        rule: format!("{n} random operation histories ({} ops after a random base structure of <= {} dimensions x <= {} attributes; profile {:?}); a case is one history executed on the real API and on the Lean model with canonical outputs compared line by line; distinct = distinct canonical implementation traces (hash of ops and normalised outputs)", p.n_ops, p.max_dims, p.max_attrs, prop),
+        rule: format!("{n} random operation histories ({} ops after a random base structure of <= {} dimensions x <= {} attributes - 20% of the histories: <= 2 dimensions x <= 6 attributes, 10%: <= 4 dimensions x <= 2 attributes; profile {:?}); a case is one history executed on the real API and on the Lean model with canonical outputs compared line by line; distinct = distinct canonical implementation traces (hash of ops and normalised outputs)", p.n_ops, p.max_dims, p.max_attrs, prop),
     }
 }
 
